@@ -59,6 +59,32 @@ func hintLayout(ps *pset, hb []byte) (ends []int, total int) {
 	return ends, ends[ps.k-1]
 }
 
+// overrunHint builds the hint region described at "hint-counter-overrun".
+func overrunHint(r *hlib.Rng, ps *pset) []byte {
+	h := make([]byte, ps.omega+ps.k)
+	// ω−1 hints spread over the first k−1 polynomials, at least one each
+	cnt := make([]int, ps.k-1)
+	for i := range cnt {
+		cnt[i] = 1
+	}
+	for n := ps.k - 1; n < ps.omega-1; n++ {
+		cnt[r.Intn(ps.k-1)]++
+	}
+	pos := 0
+	for i, c := range cnt {
+		// c strictly increasing indices
+		step := 256 / c
+		for j := 0; j < c; j++ {
+			h[pos] = byte(j*step + r.Intn(step))
+			pos++
+		}
+		h[ps.omega+i] = byte(pos)
+	}
+	h[ps.omega-1] = 0
+	h[ps.omega+ps.k-1] = 255
+	return h
+}
+
 type mut struct {
 	kind string
 	sig  []byte
@@ -180,6 +206,20 @@ func sigMutations(r *hlib.Rng, ps *pset, sig []byte) []mut {
 			add("hint-extra-one", s)
 		}
 	}
+	if total < ps.omega && len(nonEmpty) > 0 {
+		// same set of hint positions, the last index of one polynomial written twice (indices after
+		// it move up by one, its counter and the later ones grow by one): a decoder that only
+		// checks "not decreasing" would accept this second encoding of the same signature
+		i := nonEmpty[r.Intn(len(nonEmpty))]
+		s := cl()
+		h := hb(s)
+		copy(h[ends[i]+1:ps.omega], h[ends[i]:ps.omega-1])
+		h[ends[i]] = h[ends[i]-1]
+		for j := i; j < ps.k; j++ {
+			h[ps.omega+j]++
+		}
+		add("hint-index-written-twice", s)
+	}
 	if len(nonEmpty) > 0 {
 		i := nonEmpty[r.Intn(len(nonEmpty))]
 		if i+1 < ps.k {
@@ -194,6 +234,14 @@ func sigMutations(r *hlib.Rng, ps *pset, sig []byte) []mut {
 			hb(s)[ps.omega+ps.k-1]--
 			add("hint-drop-last", s)
 		}
+	}
+	{
+		// counters strictly increasing up to ω−1, the last one 255, a zero in the last index slot: a
+		// decoder without the "counter ≤ ω" check walks through the counter bytes and off the end
+		s := cl()
+		h := hb(s)
+		copy(h, overrunHint(r, ps))
+		add("hint-counter-overrun", s)
 	}
 	{
 		s := cl()
@@ -251,12 +299,36 @@ func algSection(o *hlib.Out, seed uint64) {
 			keys = append(keys, k)
 		}
 		// ---- signing and verification ----
-		for c := 0; c < hlib.N(9, 170); c++ {
+		for c := 0; c < hlib.N(14, 260); c++ {
 			o.Case()
 			k := keys[rng.Intn(len(keys))]
 			other := keys[(rng.Intn(len(keys)-1)+1+indexOf(keys, k))%len(keys)]
 			signCase(o, rng, k, other)
 		}
+		bulkSign(o, rng, keys)
+	}
+}
+
+// bulkSign: many deterministic and explicit-rnd signatures on short messages, byte for byte against
+// the reference — every rejection-loop comparison of Alg. 7 (‖z‖∞ < γ1−β, ‖r0‖∞ < γ2−β,
+// ‖ct0‖∞ < γ2, hints ≤ ω) sits on its boundary for roughly one candidate in a hundred.
+func bulkSign(o *hlib.Out, rng *hlib.Rng, keys []*gkey) {
+	for c := 0; c < hlib.N(30, 900); c++ {
+		if c%10 == 0 {
+			o.Case()
+		}
+		k := keys[rng.Intn(len(keys))]
+		mp := fmtMsg(nil, rng.Bytes(1+rng.Intn(16)))
+		var rnd [32]byte
+		if rng.Bool() {
+			copy(rnd[:], rng.Bytes(32))
+		}
+		s := k.sk.VerifSignInternal(mp, rnd)
+		o.Emit("!D sign "+k.ps.name+" "+k.skTok+" "+hlib.Tok(mp)+" "+hlib.Tok(rnd[:]), okTok(s), true)
+		if k.pk.VerifVerifyInternal(mp, s) != nil {
+			o.Violate("ML-DSA-%s: own signature rejected (bulk)", k.ps.name)
+		}
+		o.Count("sign/bulk")
 	}
 }
 
@@ -321,6 +393,15 @@ func signCase(o *hlib.Out, rng *hlib.Rng, k, other *gkey) {
 		_, e1 := k.sk.SignDeterministic(msg, long)
 		_, e2 := k.sk.Sign(msg, long)
 		e3 := k.pk.Verify(msg, sigD, long)
+		// a context of L > 255 bytes would be framed with the length byte L−256: the same M′ as the
+		// legitimate pair (ctx = long[:L−256], M = long[L−256:] ‖ msg), whose signature must not carry over
+		cut := len(long) - 256
+		if sw, e := k.sk.SignDeterministic(append(append([]byte(nil), long[cut:]...), msg...), long[:cut]); e == nil {
+			if k.pk.Verify(msg, sw, long) == nil {
+				o.Violate("ML-DSA-%s: Verify accepts a context of %d bytes (length byte wraps)", set, len(long))
+			}
+			o.Count("verify/ctx>255-wrapping-signature=0")
+		}
 		if e1 == nil || e2 == nil || e3 == nil {
 			o.Violate("ML-DSA-%s: context of %d bytes accepted (sign det %v, sign %v, verify %v)", set, len(long), e1, e2, e3)
 		}
